@@ -45,6 +45,11 @@ type sNode struct {
 	dir  bool
 	kids []*sNode
 	data []byte
+	// scanopt.go: non-regular files and failing operations (zero values: a plain file / directory on which everything works)
+	mode     fs.FileMode // type bits (fs.ModeSymlink, fs.ModeDevice) or permission bits of a regular file
+	openErr  error       // FS.Open fails
+	fstatErr error       // File.Stat of the opened file fails
+	statErr  error       // FS.Stat fails
 }
 
 type slowFS struct {
@@ -69,6 +74,9 @@ func (i sInfo) Mode() fs.FileMode {
 	if i.n.dir {
 		return fs.ModeDir | 0o755
 	}
+	if i.n.mode != 0 {
+		return i.n.mode
+	}
 	return 0o644
 }
 func (i sInfo) ModTime() time.Time { return time.Time{} }
@@ -81,7 +89,12 @@ type sFile struct {
 	off int
 }
 
-func (f *sFile) Stat() (fs.FileInfo, error) { return sInfo{f.n}, nil }
+func (f *sFile) Stat() (fs.FileInfo, error) {
+	if f.n.fstatErr != nil {
+		return nil, f.n.fstatErr
+	}
+	return sInfo{f.n}, nil
+}
 func (f *sFile) Close() error               { return nil }
 func (f *sFile) Read(p []byte) (int, error) {
 	if f.n.dir {
@@ -131,6 +144,9 @@ func (f *slowFS) Open(name string) (fs.File, error) {
 	if err != nil {
 		return nil, err
 	}
+	if n.openErr != nil {
+		return nil, &fs.PathError{Op: "open", Path: name, Err: n.openErr}
+	}
 	switch {
 	case n.dir:
 		f.pause("dopen")
@@ -146,6 +162,9 @@ func (f *slowFS) Stat(name string) (fs.FileInfo, error) {
 	n, err := f.lookup("stat", name)
 	if err != nil {
 		return nil, err
+	}
+	if n.statErr != nil {
+		return nil, &fs.PathError{Op: "stat", Path: name, Err: n.statErr}
 	}
 	f.pause("stat")
 	return sInfo{n}, nil
